@@ -66,6 +66,7 @@ type cVariant struct {
 	Shift  int    `json:"shift"`
 	Table  int    `json:"table"`
 	NoFrom bool   `json:"nofrom"` // soft types declared by hand: relationships without FromType
+	Built  bool   `json:"built"`  // resource family: a soft resource is given a copy of a type made by BuildType (it carries a NewFunc)
 }
 
 type cCase struct {
